@@ -713,6 +713,20 @@ ElemNumber::getPreviousNode(
                     if(0 != child)
                         next = child;
                 }
+
+                // Only the nodes after the first node before the current
+                // node that matches the from pattern are counted, whether
+                // that node is an ancestor or not.
+                if (0 != fromMatchPattern &&
+                    fromMatchPattern->getMatchScore(
+                        next,
+                        *this,
+                        executionContext) != XPath::eMatchScoreNone)
+                {
+                    pos = 0;
+
+                    break;
+                }
             }
 
             pos = next;
